@@ -42,7 +42,17 @@ def work(seed):
         pr = subprocess.run([os.path.join(HERE, "check"), p], capture_output=True, text=True, env=env)
         verdict = "ok" if pr.returncode == 0 else ("violation" if (pr.returncode == 1 and "VIOLATION property=" in pr.stdout) else "no-verdict")
         cex = "no-failing-input-found" not in pr.stdout if verdict == "violation" else None
-        out[p] = {"verdict": verdict, "with_failing_input": cex}
+        # what the deductive part alone said: a named obligation of a function under contract failed /
+        # it gave no verdict (lost anchor, unsupported construct, ...) / it accepted the changed code
+        lines = pr.stdout.splitlines()
+        ded = [l for l in lines if l.startswith("FAILED OBLIGATION: ") and not l.startswith("FAILED OBLIGATION: bounded check")]
+        if ded:
+            deductive = "failed-obligation"
+        elif any("the deductive part gave no verdict" in l or l.startswith("NO-VERDICT") for l in lines):
+            deductive = "no-verdict"
+        else:
+            deductive = "silent"
+        out[p] = {"verdict": verdict, "with_failing_input": cex, "deductive": deductive, "deductive_obligations": sorted({l[len("FAILED OBLIGATION: "):][:160] for l in ded})[:4]}
     shutil.rmtree(scratch, ignore_errors=True)
     return seed, out
 
@@ -62,4 +72,5 @@ for seed, out in res.items():
     m["also_flagged_by"] = [p for p, v in out.items() if v["verdict"] == "violation" and p != target]
     m["no_verdict"] = [p for p, v in out.items() if v["verdict"] == "no-verdict"]
     m["failing_input_found"] = bool(out.get(target, {}).get("with_failing_input"))
+    m["deductive_part"] = out.get(target, {}).get("deductive")
     json.dump(m, open(mp, "w"), indent=1)
